@@ -397,6 +397,14 @@ def run_case(case, ctx):
             kw["default_value"] = (lambda v: 7) if dname in UDTYPES else rng.choice([lambda v: 7, lambda v: v.bounds.upper, lambda v: -1])
         if dname != "int64" or rng.random() < 0.5:
             kw["dtype"] = dict(DTYPES, **UDTYPES)[dname]
+        if dname in ("float", "float32") and vv and rng.random() < 0.5:
+            # fractional given values next to defaults of another kind (ints or booleans returned by the callable): a given value is taken as given
+            vv = {k: (v + rng.choice([0.5, 0.25, -0.5]) if k != "unknown-id" else v) for k, v in vv.items()}
+            if rng.random() < 0.7:
+                kw["default_value"] = rng.choice([lambda v: 7, lambda v: v.bounds.upper, lambda v: True, lambda v: v.bounds.lower > 0])
+            ctx.count("count:construct:fractional-values")
+        elif "default_value" in kw and rng.random() < 0.2 and dname not in UDTYPES:
+            kw["default_value"] = rng.choice([lambda v: True, lambda v: False])      # booleans as defaults next to integer given values
         ctx.call("construct", arr.construct, vv, **kw)
     elif kind in ("ifrom", "bfrom"):
         ctxt = ids
@@ -407,7 +415,11 @@ def run_case(case, ctx):
             ctx.count("count:mixed-type-context")
         def flat():
             k = rng.randint(1, len(pool))
-            return rng.sample(pool, k)
+            out = rng.sample(pool, k)
+            if rng.random() < 0.25:
+                out.insert(rng.randint(0, len(out)), rng.choice(out))        # an id listed twice is still just listed
+                ctx.count("count:from_list:repeated-id")
+            return out
         lst = flat() if rng.random() < 0.5 else [flat() for _ in range(rng.randint(1, 3))]
         if kind == "ifrom":
             ctx.call("integer.from_list", pnd.integer_ndarray.from_list, lst, list(ctxt))
